@@ -225,6 +225,10 @@ def main():
     import gen_c06_caps
     counts, miss = gen_c06_caps.generate(REPO)
     vals.update(counts)      # C06_LIMITS_CALL_SITES, C06_TRANSPORT_SHAPES_OK
+    # C12: select!/poll orders, error mapping and forget() sites of the notification code -> coq/gen/C12Tables.v
+    import gen_c12_tables
+    counts, miss = gen_c12_tables.generate(REPO)
+    vals.update(counts)      # C12_TABLE_ITEMS
     missing += list(miss)
     str_names = []
     for name, path, rx in STR_CONSTS:
